@@ -185,12 +185,19 @@ pub fn run(ctx: &mut Ctx, _replay: Option<&[String]>) {
     ctx.extra.insert("mackay_neal_cases_where_swapping_the_two_backtrack_options_changes_the_result".into(), differs_by_option.to_string());
     // ---------------------------------------------------------------- encode: framing
     for k in 0..ctx.scale(60, 600) {
-        let (h, _) = crate::c02::gen_h(&mut rng, 6, 14);
+        // every fourth code has a length that is a multiple of 7, 9 or 11 (patterns of those lengths are where n / (len / trues) is not exact in floating point)
+        let (h, _) = if k % 4 == 3 {
+            let n = *rng.pick(&[14usize, 21, 28, 35, 18, 27, 22, 33]);
+            let r = rng.range(2, 6);
+            let mut h = SparseMatrix::new(r, n);
+            for j in 0..r { for c in 0..(n - r) { if rng.chance(1, 3) { h.insert(j, c); } } h.insert(j, n - r + j); if j > 0 { h.insert(j, n - r + j - 1); } }
+            (h, "staircase")
+        } else { crate::c02::gen_h(&mut rng, 6, 14) };
         let h = SparseMatrix::from_alist(&h.alist()).unwrap();
         if Encoder::from_h(&h).is_err() || h.num_cols() == h.num_rows() { continue; }
         let n = h.num_cols();
         let kk = n - h.num_rows();
-        let divs: Vec<usize> = (2..=6).filter(|d| n % d == 0).collect();
+        let divs: Vec<usize> = (2..=14).filter(|d| n % d == 0).collect();
         let pattern: Option<Vec<bool>> = if !divs.is_empty() && rng.chance(1, 2) {
             let d = *rng.pick(&divs);
             let mut p: Vec<bool> = (0..d).map(|_| rng.chance(2, 3)).collect();
@@ -248,6 +255,9 @@ pub fn run(ctx: &mut Ctx, _replay: Option<&[String]>) {
         ("ber-bad-pattern", vec!["ber", &good, "--min-ebn0", "1", "--max-ebn0", "2", "--step-ebn0", "1", "--puncturing", "x"]),
         ("ber-unknown-decoder", vec!["ber", &good, "--min-ebn0", "1", "--max-ebn0", "2", "--step-ebn0", "1", "--decoder", "Phif65"]),
         ("ccsds-bad-block-size", vec!["ccsds", "--rate", "1/2", "--block-size", "1000"]),
+        ("ccsds-block-size-1025", vec!["ccsds", "--rate", "1/2", "--block-size", "1025"]),
+        ("ccsds-block-size-4097", vec!["ccsds", "--rate", "2/3", "--block-size", "4097"]),
+        ("ccsds-block-size-17000", vec!["ccsds", "--rate", "4/5", "--block-size", "17000"]),
         ("peg-no-rows", vec!["peg", "0", "4", "2", "1"]),
     ];
     for (name, args) in cases {
